@@ -8,6 +8,7 @@ mod lifecycle;
 mod observe;
 mod replay;
 mod total;
+mod walk;
 
 fn main() {
     let args: Vec<String> = std::env::args().skip(1).collect();
@@ -19,6 +20,7 @@ fn main() {
         "observe" => observe::run(&args[1..]),
         "replay" => replay::run(&args[1..]),
         "lifecycle" => lifecycle::run(&args[1..]),
+        "walk" => walk::run(&args[1..]),
         "total" => total::run(&args[1..]),
         "total-worker" => total::worker(),
         other => {
